@@ -28,6 +28,28 @@ func (Engine) Info(prop string) core.Info {
 			ThoroughRuns: 60000,
 			WatchdogSec:  120,
 		}
+	case "C05":
+		return core.Info{
+			Level:        "exploration",
+			Rule:         "one plan = a real fbb.Session against the independently written reference B2F peer (ref/b2f) in strict validator mode, either role; library side: seeded message sets, answer policies, MOTD, user agent, auxiliary addresses; peer side: seeded SID, prompt, MOTD text, ;FW lists with |hash, comment and ;PM placement, duplicate MID in a block, proposals per block 1-5, STX block sizes 1..256, every answer form (+ - = Y N L H R !0 A0, either case), CMS-style early FQ; per-direction segmentation/latency tapes. Non-trivial: at least one message crossed in either direction. Distinct: distinct event-log hash.",
+			Real:         realCode,
+			Stub:         []string{"clock (testing/synctest)", "link (sim/pipe)", "remote station (ref/b2f reference peer + independent LZHUF decoder)", "mailbox handler (ref/mbox)"},
+			Assumptions:  []string{"the reference peer encodes B2F as described in docs/F6FBB-B2F and the public Winlink B2F description; behaviour of real RMS software beyond those documents is not simulated", "library runs on the Go 1.26.8 standard library"},
+			QuickRuns:    8000,
+			ThoroughRuns: 80000,
+			WatchdogSec:  120,
+		}
+	case "C16":
+		return core.Info{
+			Level:        "exploration",
+			Rule:         "one plan = a real fbb.Session (slave) against the reference peer acting as CMS that issues ;PQ <challenge>; seeded challenges (8 digits, 1-24 digits, alphanumerics, odd strings), passwords of 6-16 arbitrary bytes without CR/LF, 0-3 auxiliary addresses each with password / without / with failing callback, runs without a callback and with a failing callback for the primary address; seeded segmentation/latency. The expected ;PR and ;FW entries come from an independent implementation of the algorithm (ref/b2f/secure.go, pinned by the published vectors); a wire tap searches everything the Session wrote for the passwords. Non-trivial: a ;PR line was received and matched. Distinct: distinct event-log hash. (Differential check hosted in the simulator: no schedule or fault changes the answer.)",
+			Real:         realCode,
+			Stub:         []string{"clock (testing/synctest)", "link (sim/pipe)", "CMS (ref/b2f reference peer)", "mailbox handler (ref/mbox)"},
+			Assumptions:  []string{"the 64-byte salt copy in ref/b2f is correct (pinned by the two published test vectors)", "library runs on the Go 1.26.8 standard library"},
+			QuickRuns:    8000,
+			ThoroughRuns: 100000,
+			WatchdogSec:  120,
+		}
 	}
 	return core.Info{}
 }
@@ -36,6 +58,10 @@ func (Engine) Generate(prop, tier string, r *core.Rand, run int) any {
 	switch prop {
 	case "C01":
 		return genC01(tier, r)
+	case "C05":
+		return genC05(tier, r)
+	case "C16":
+		return genC16(tier, r)
 	}
 	return nil
 }
@@ -44,6 +70,10 @@ func (Engine) Execute(t *testing.T, prop string, plan json.RawMessage, trace boo
 	switch prop {
 	case "C01":
 		return execC01(t, prop, plan, trace)
+	case "C05":
+		return execC05(t, prop, plan, trace)
+	case "C16":
+		return execC16(t, prop, plan, trace)
 	}
 	var o core.Outcome
 	o.Violate(prop, "harness", "unknown-property", "engine fbbsim does not serve "+prop)
